@@ -76,10 +76,11 @@ def run(chk, only=None):
     if not only or "wide" in only:
         nwide = _wide(chk, quick)
     ntr = nev = 0
-    for mode, actions in (("single", ["wr", "tx"]), ("pair", ["cp", "eq", "wr"])):
+    for mode, actions in (("single", ["wr", "tx"]), ("pair", ["cp", "eq", "wr"]), ("trunc", ["wr"])):
         if only and mode not in only:
             continue
-        t, e = view_beh.run_behaviours(chk, mode, actions, nbeh=10 if quick else 200, depth=6 if quick else 10, progs=progs, san=True)
+        nbeh = (10 if quick else 200) if mode != "trunc" else (40 if quick else 400)
+        t, e = view_beh.run_behaviours(chk, mode, actions, nbeh=nbeh, depth=(6 if quick else 10) if mode != "trunc" else 3, progs=progs, san=True)
         ntr += t
         nev += e
     chk.traces = total + ntr + nwide
